@@ -7,7 +7,7 @@ import (
 
 	"gonum.org/v1/gonum/cmplxs"
 
-	"verif/harness/internal/core"
+	"gonum.org/v1/gonum/verifharness/internal/core"
 )
 
 // complex slices: the specification prints Gaussian integers as interleaved (re, im) pairs.
